@@ -23,24 +23,31 @@ TRUSTED = [
     "PipelineBuilder.build_config (default connections, cycle check), tied to the code by correspondence cases evaluated inside Coq: outcome or error "
     "class of Pipeline.run, execution log in call order, state mapping of run_all, several runs on one pipeline object",
     "extractor harness/translate/c02.py (Python ast -> Gen/C02_shape.v): a run builds a fresh PipelineRunner whose status map is all 'pending' and whose "
-    "state is empty, and neither Pipeline.run/run_all nor the runner assign to the pipeline; status dispatch order of PipelineRunner.run",
-    "components are modelled as deterministic interaction trees that do not catch the exceptions of their lazy inputs; graphlib.TopologicalSorter "
-    "(cycle detection) and typing.get_type_hints are library contracts exercised by the correspondence runs, not verified",
+    "state is empty, and neither Pipeline.run/run_all nor the runner assign to the pipeline; status dispatch order of PipelineRunner.run; "
+    "PipelineBuilder.connect/default_connection wire a Node by name and make a literal of anything else",
+    "components are modelled as deterministic interaction trees; a body may catch the exception of a lazy input (TryForce) -- at_most_once, "
+    "failed_node_not_retried, only_if_needed(i) cover such bodies, the theorems relating the run to the memo-free evaluation assume catch_free; "
+    "graphlib.TopologicalSorter (cycle detection) and typing.get_type_hints are library contracts exercised by the correspondence runs, not verified",
     "error classes are canonicalised: KeyError and PipelineError('.. not specified' / 'no data available ..') -> EMissing, TypeError -> EType, "
     "PipelineError('.. cycle ..') -> ECycle, component exceptions -> EComp k (object identity checked by the harness)",
 ]
 ASSUMPTIONS = [
-    "components are deterministic functions of their (eager and forced lazy) inputs and do not catch exceptions raised while forcing a lazy input",
+    "components are deterministic functions of their (eager and forced lazy) inputs; run_correct, value_independent_of_consumer, only_if_needed(ii,iii), "
+    "declaration_order_irrelevant, run_fuel_irrelevant, exception_transparent assume that no body catches an exception raised while forcing a lazy input "
+    "(catch_free); at_most_once, failed_node_not_retried, only_if_needed(i) hold for catching bodies too",
     "theorems about results assume the resolved wiring is acyclic (a rank function exists) and the recursion bound exceeds the depth of the graph",
-    "values are ints or non-int objects; parameter annotations are int, int | None, Lazy[int], Lazy[int | None], an unconstrained TypeVar, or absent",
+    "values are ints (bools included), non-int objects (str, float, list, dict) or None; parameter annotations are int, int | None, Lazy[int], Lazy[int | None], an unconstrained TypeVar, or absent",
 ]
 RULE = ("structured generator: 1-4 inputs (int / int|None / untyped; supplied, absent or ill-typed per run; untyped ones also carry strs and float64 / "
         "int64 arrays), 0-3 literals, 1-10 components of arity 0-4 declared in random order and wired by connect() to earlier or later-declared nodes, "
         "aliases, default connections, lazy parameters, use_first_of chains, parameters annotated int / int|None / Lazy[..] / TypeVar / none and (every "
         "4th graph) np.ndarray[Any, np.dtype[float64|int64]] fed with arrays of matching and non-matching dtype in either order within the one process, "
         "bodies that force lazies conditionally, return None / a non-int / an array, or raise one of 8 exception classes (custom, KeyError and a subclass, "
-        "IndexError, LookupError, PipelineError, TypeError, ValueError); 2-5 runs per pipeline object with 0-3 requested nodes; every other graph is a "
-        "builder HISTORY: the same PipelineBuilder is edited (default connections changed or added, connect, alias; optionally config_hash()/"
+        "IndexError, LookupError, PipelineError, TypeError, ValueError); 2-5 runs per pipeline object with 0-3 requested nodes; "
+        "0-3 values written directly in connect()/add_component()/default_connection() calls (ints, bools, None, floats, lists, dicts, strs -- half of "
+        "them strs equal to the name of a node declared before or after the call, to an alias, or to no node); every 4th graph has bodies that force "
+        "lazy inputs inside try/except and carry on, with runs that ask again for the node whose failure was caught; every other graph is a "
+        "builder HISTORY: the same PipelineBuilder is edited (default connections changed or added, connect to a node or to a bare value, alias; optionally config_hash()/"
         "build_config() first) and built again 1-3 more times, every built pipeline compared with the model of the builder state at that moment; every "
         "4th base graph is repeated with a raising component at each position in turn; every 8th case is malformed (cycle via connect, via a default "
         "connection, or injected into a built pipeline). non-trivial = in some build, at least 3 components executed in a run, a node consumed by two "
@@ -94,8 +101,34 @@ def gen_anyval(rng, arrays):
     return [rng.weighted([("i", 6), ("s", 1), ("f", 1), ("a", 1)]), rng.randint(0, 9)]
 
 
-def gen_body(rng, params, kind):
-    """params: list of annotations.  Returns a bprog in JSON form."""
+# values wired as literals that are not ints, "s<k>" strings or arrays: every other JSON-ish type
+JTABLE = [1.5, [1, 2], {"k": 1}, "", [], 2.0, "x y", {"n0": [None, 1]}]
+N_OFF, J_OFF = 10000, 20000       # VStr numbers of the strings "n<k>" (spelled like node names / aliases) and of JTABLE[k]
+
+
+def gen_inline_val(rng, name_ids, taken):
+    """A value written directly in a connect()/add_component()/default_connection() call: any JSON-ish type,
+    with strings that coincide with the name of a node or an alias of the same builder (or of no node)."""
+    for _ in range(20):
+        kind = rng.weighted([("n", 6), ("i", 2), ("s", 1), ("j", 3), ("b", 1), ("none", 1)])
+        if kind == "none":
+            v = None
+        elif kind == "n":
+            v = ["n", rng.choice(name_ids)]
+        elif kind == "j":
+            v = ["j", rng.below(len(JTABLE))]
+        elif kind == "b":
+            v = ["b", rng.below(2)]
+        else:
+            v = [kind, rng.randint(0, 9)]
+        if v not in taken:
+            return v
+    return ["i", 1000 + len(taken)]
+
+
+def gen_body(rng, params, kind, catching=False):
+    """params: list of annotations.  Returns a bprog in JSON form.  catching: lazy inputs may be forced inside
+    try/except (the body carries on when the input fails)."""
     eager = [i for i, p in enumerate(params) if not ANNS[p["ann"]][0]]
     lazy = [i for i, p in enumerate(params) if ANNS[p["ann"]][0]]
 
@@ -120,6 +153,8 @@ def gen_body(rng, params, kind):
             return final(forced)
         i, rest = todo[0], todo[1:]
         style = rng.below(4)
+        if catching and rng.chance(3, 5):   # try: forced[i] = args[i].get()  except Exception: ...  else: ...
+            return ["try", i, build(rest, forced + [i], depth + 1), build(rest, forced, depth + 1)]
         if style == 0:                      # always force
             return ["force", i, build(rest, forced + [i], depth + 1)]
         if style == 1:                      # never force
@@ -139,10 +174,11 @@ def gen_body(rng, params, kind):
     return body
 
 
-def gen_graph(rng, malformed):
+def gen_graph(rng, malformed, catching=False):
     arrays = rng.chance(1, 4)
     n_in = rng.randint(1, 4)
     n_lit = rng.weighted([(0, 3), (1, 3), (2, 2), (3, 1)])
+    n_inl = rng.weighted([(0, 5), (1, 3), (2, 2), (3, 1)])
     n_comp = rng.weighted([(1, 1), (2, 2), (3, 3), (4, 3), (5, 3), (6, 2), (8, 2), (10, 1)])
     nodes = []          # in hidden topological order
     for _ in range(n_in):
@@ -150,6 +186,8 @@ def gen_graph(rng, malformed):
         nodes.append({"kind": "input", "typed": t != "any", "nullable": t != "int"})
     for _ in range(n_lit):
         nodes.append({"kind": "literal", "val": gen_val(rng, 1)})
+    for _ in range(n_inl):
+        nodes.append({"kind": "inline", "val": None})       # value chosen below, once the names are known
     base = len(nodes)
     for k in range(n_comp):
         here = len(nodes)
@@ -169,9 +207,11 @@ def gen_graph(rng, malformed):
             # bias towards sharing: re-use a recent component
             if conn is not None and here > base and rng.chance(1, 2):
                 conn = rng.randint(max(base, here - 4), here - 1)
+            if conn is not None and nodes[conn]["kind"] == "inline" and rng.chance(2, 3):
+                ann = rng.weighted([("any", 4), ("lazyany", 1)])     # mostly let a literal of any type through
             params.append({"name": pn, "conn": conn, "ann": ann})
         kind = rng.weighted([("lin", 12), ("none", 1), ("str", 1), ("arrf", 6 if arrays else 0), ("arri", 5 if arrays else 0)])
-        nodes.append({"kind": "comp", "params": params, "body": gen_body(rng, params, kind)})
+        nodes.append({"kind": "comp", "params": params, "body": gen_body(rng, params, kind, catching)})
     n = len(nodes)
     # default connections
     defaults = []
@@ -226,8 +266,17 @@ def gen_graph(rng, malformed):
         nd["id"] = ident[h]
         out[ident[h]] = nd
     aliases = []
+    named = [i for i in range(n) if out[i]["kind"] != "inline"]
     for k in range(rng.weighted([(0, 2), (1, 2), (2, 1)])):
-        aliases.append([100 + k, rng.below(n)])
+        aliases.append([100 + k, rng.choice(named)])
+    # literal values written in the wiring calls: strings equal to names of nodes declared earlier or later,
+    # to aliases, to no node; and the other JSON-ish types
+    name_ids = named * 2 + [a for a, _ in aliases] * 2 + [n, n + 1, 100 + len(aliases)]
+    taken = []
+    for nd in out:
+        if nd["kind"] == "inline":
+            nd["val"] = gen_inline_val(rng, name_ids, taken)
+            taken.append(nd["val"])
     return {"nodes": out, "defaults": [[pn, ident[t]] for pn, t in defaults], "aliases": aliases,
             "inject": [[ident[j], pn, ident[t]] for j, pn, t in inject], "depth_order": [ident[h] for h in range(n)],
             "arrays": arrays}
@@ -235,7 +284,7 @@ def gen_graph(rng, malformed):
 
 def gen_runs(rng, g):
     ins = [nd for nd in g["nodes"] if nd["kind"] == "input"]
-    names = [nd["id"] for nd in g["nodes"]] + [a for a, _ in g["aliases"]]
+    names = [nd["id"] for nd in g["nodes"] if nd["kind"] != "inline"] + [a for a, _ in g["aliases"]]
     kinds = {nd["id"]: nd["kind"] for nd in g["nodes"]}
     comps = [i for i in g["depth_order"] if kinds[i] in ("comp", "fallback")]      # shallow to deep
     deep = comps[len(comps) // 2:]
@@ -259,6 +308,18 @@ def gen_runs(rng, g):
         for _ in range(k):
             req.append(rng.choice(deep) if comps and rng.chance(1, 2) else rng.choice(comps) if comps and rng.chance(1, 2) else rng.choice(names))
         runs.append({"inputs": inputs, "req": req})
+    # bodies that catch: ask for the consumer, then again for what it consumed lazily (and for the consumer)
+    w = _wiring(g, with_inject=False)
+    for nd in g["nodes"]:
+        if nd["kind"] == "comp" and _has_try(nd["body"]) and rng.chance(2, 3):
+            srcs = [s for s, lz, *_ in w[nd["id"]] if lz and s is not None and kinds.get(s) != "inline"]
+            if srcs:
+                s = rng.choice(srcs)
+                users = [c for c in comps if any(x == s for x, *_ in w.get(c, []))] or [nd["id"]]
+                req = rng.choice([[nd["id"], s], [nd["id"], rng.choice(users), nd["id"]], [nd["id"], s, rng.choice(deep)]])
+                how = rng.weighted([("ok", 3), ("absent", 1)])
+                runs.append({"inputs": [[x["id"], (["i", rng.randint(0, 20)] if x["typed"] or not g.get("arrays") else gen_anyval(rng, True))]
+                                        for x in ins if how == "ok" or rng.chance(1, 2)], "req": req})
     # a run that should succeed after whatever failed before it
     runs.append({"inputs": [[nd["id"], (["i", rng.randint(0, 20)] if nd["typed"] or not g.get("arrays") else gen_anyval(rng, True))] for nd in ins],
                  "req": [rng.choice(deep)] if comps else [names[0]]})
@@ -276,9 +337,25 @@ def apply_edits(state, edits):
             for p in st["nodes"][e[1]]["params"]:
                 if p["name"] == e[2]:
                     p["conn"] = e[3]
+        elif e[0] == "addlit":      # a value written in a connect() call: the builder makes a literal node of it
+            st["nodes"].append({"kind": "inline", "val": e[2], "id": e[1]})
         else:
             st["aliases"] = [[e[1], e[2]]] + st["aliases"]
     return st
+
+
+def _has_try(b):
+    if b[0] == "try":
+        return True
+    if b[0] == "force":
+        return _has_try(b[2])
+    if b[0] == "ifnone":
+        return _has_try(b[2]) or _has_try(b[3])
+    return False
+
+
+def has_try(case):
+    return any(nd["kind"] == "comp" and _has_try(nd["body"]) for nd in case["nodes"])
 
 
 def gen_stages(rng, g, malformed):
@@ -288,10 +365,11 @@ def gen_stages(rng, g, malformed):
     rank = {i: h for h, i in enumerate(g["depth_order"])}
     for k in range(rng.weighted([(1, 3), (2, 2), (3, 1)])):
         comps = [nd for nd in state["nodes"] if nd["kind"] == "comp" and nd["params"]]
-        leaves = [nd["id"] for nd in state["nodes"] if nd["kind"] in ("input", "literal")]
+        leaves = [nd["id"] for nd in state["nodes"] if nd["kind"] in ("input", "literal", "inline")]
+        named = [nd["id"] for nd in state["nodes"] if nd["kind"] != "inline"]
         edits = []
         for _ in range(rng.randint(1, 3)):
-            what = rng.weighted([("default", 5), ("connect", 2), ("alias", 1)])
+            what = rng.weighted([("default", 5), ("connect", 2), ("alias", 1), ("connect-value", 2)])
             if what == "default":
                 used = [d[0] for d in state["defaults"]]
                 unwired = [p["name"] for nd in comps for p in nd["params"] if p["conn"] is None]
@@ -305,9 +383,24 @@ def gen_stages(rng, g, malformed):
                 lower = [i for i in rank if rank[i] < rank[nd["id"]]]
                 if lower:
                     edits.append(["connect", nd["id"], p["name"], rng.choice(lower)])
+            elif what == "connect-value" and comps:
+                # connect(comp, p=<value>): every node and alias of the builder is declared by now
+                nd = rng.choice(comps)
+                p = rng.choice(nd["params"])
+                cur = apply_edits(state, edits)
+                inl = {nd2["id"]: nd2["val"] for nd2 in cur["nodes"] if nd2["kind"] == "inline"}
+                name_ids = named * 2 + [a for a, _ in cur["aliases"]] * 3 + [len(cur["nodes"]) + 1]
+                val = gen_inline_val(rng, name_ids, [])
+                same = [i for i, x in inl.items() if x == val]
+                if same:
+                    tgt = same[0]
+                else:
+                    tgt = len(cur["nodes"])
+                    edits.append(["addlit", tgt, val])
+                edits.append(["connect", nd["id"], p["name"], tgt])
             elif what == "alias":
                 a = 100 + len(state["aliases"]) + sum(1 for e in edits if e[0] == "alias")
-                edits.append(["alias", a, rng.choice([nd["id"] for nd in state["nodes"]])])
+                edits.append(["alias", a, rng.choice(named)])
         state = apply_edits(state, edits)
         pre = rng.weighted([(None, 3), ("hash", 1), ("config", 1)])
         stages.append({"edits": edits, "pre": pre, "runs": gen_runs(rng, state)[-2:]})
@@ -320,7 +413,7 @@ def gen_cases(rng, tier):
     for k in range(n_base):
         r = rng.fork(k)
         malformed = k % 8 == 7
-        g = gen_graph(r, malformed)
+        g = gen_graph(r, malformed, catching=k % 8 in (0, 5))
         case = {**g, "runs": gen_runs(r, g), "style": "malformed" if malformed else "valid"}
         if not g["inject"] and k % 2 == 1:
             case["stages"] = gen_stages(r.fork("stages"), g, malformed)
@@ -379,6 +472,12 @@ def pyval(v):
         return v[1]
     if v[0] == "s":
         return f"s{v[1]}"
+    if v[0] == "n":
+        return nname(v[1])
+    if v[0] == "j":
+        return copy.deepcopy(JTABLE[v[1]])
+    if v[0] == "b":
+        return bool(v[1])
     import numpy as np
     return np.array([v[1]], dtype=np.float64 if v[0] == "f" else np.int64)
 
@@ -386,12 +485,13 @@ def pyval(v):
 def jval(x):
     if x is None:
         return None
-    if isinstance(x, bool):
-        raise TypeError("bool value")
-    if isinstance(x, int):
-        return ["i", x]
-    if isinstance(x, str) and x.startswith("s"):
-        return ["s", int(x[1:])]
+    if isinstance(x, int):          # a bool is an int for isinstance and for arithmetic
+        return ["i", int(x)]
+    if isinstance(x, str) and x[:1] in ("s", "n") and x[1:].isdigit():
+        return [x[0], int(x[1:])]
+    for k, t in enumerate(JTABLE):
+        if same_value(x, t):
+            return ["j", k]
     if type(x).__name__ == "ndarray" and x.shape == (1,):
         if str(x.dtype) == "float64":
             return ["f", int(x[0])]
@@ -400,13 +500,18 @@ def jval(x):
     raise TypeError(f"unexpected value {x!r}")
 
 
+def same_value(x, y):
+    return type(x) is type(y) and (x == y if not type(x).__name__ == "ndarray" else (x.dtype == y.dtype and x.tolist() == y.tolist()))
+
+
 def num(x):
     if x is None:
         return -1
     if isinstance(x, int):
-        return x
-    if isinstance(x, str):
-        return 1000003 + int(x[1:])
+        return int(x)
+    j = jval(x)
+    if j[0] in ("s", "n", "j"):
+        return 1000003 + {"s": 0, "n": N_OFF, "j": J_OFF}[j[0]] + j[1]
     return (2000003 if str(x.dtype) == "float64" else 3000003) + int(x[0])
 
 
@@ -446,6 +551,15 @@ class Interp:
                 x = args[b[1]]
                 forced[b[1]] = None if x is None else x.get()
                 b = b[2]
+            elif b[0] == "try":
+                x = args[b[1]]
+                try:
+                    got = None if x is None else x.get()
+                except Exception:
+                    b = b[3]
+                else:
+                    forced[b[1]] = got
+                    b = b[2]
             else:
                 b = b[2] if atom(b[1]) is None else b[3]
 
@@ -495,12 +609,34 @@ def nname(i):
     return f"n{i}"
 
 
+class Target:
+    """What the driver passes where the API takes `Node | value`: the node handle, or -- for a value written directly
+    in the wiring call (kind "inline") -- the bare value, of which the builder makes a literal node."""
+
+    def __init__(self, handles):
+        self.handles, self.inline, self.used = handles, {}, set()
+
+    def __call__(self, i):
+        if i in self.inline:
+            self.used.add(i)
+            return pyval(self.inline[i])
+        return self.handles[i]
+
+
 def make_builder(case, interp):
     b = PipelineBuilder()
     handles = {}
+    tgt = Target(handles)
     later = []
     for nd in case["nodes"]:
         i = nd["id"]
+        if nd["kind"] == "inline":
+            tgt.inline[i] = nd["val"]
+    avail = lambda t: t in handles or t in tgt.inline       # noqa: E731
+    for nd in case["nodes"]:
+        i = nd["id"]
+        if nd["kind"] == "inline":
+            continue
         if nd["kind"] == "input":
             ts = ([int] if nd["typed"] else []) + ([None] if nd["typed"] and nd["nullable"] else [])
             handles[i] = b.create_input(nname(i), *ts)
@@ -508,7 +644,7 @@ def make_builder(case, interp):
             handles[i] = b.literal(pyval(nd["val"]), name=nname(i))
         elif nd["kind"] == "fallback":
             fn = logged_fallback(interp, i)
-            if nd["primary"] in handles and nd["fallback"] in handles:
+            if nd["primary"] in handles and nd["fallback"] in handles:   # (bare values go through connect() below)
                 LB.fallback_on_none = fn           # use_first_of adds the module-level function
                 try:
                     handles[i] = b.use_first_of(nname(i), handles[nd["primary"]], handles[nd["fallback"]])
@@ -518,32 +654,42 @@ def make_builder(case, interp):
                 handles[i] = b.add_component(nname(i), fn)
                 later.append((i, {"primary": nd["primary"], "fallback": nd["fallback"]}))
         else:
-            now = {PNAMES[p["name"]]: handles[p["conn"]] for p in nd["params"] if p["conn"] is not None and p["conn"] in handles and p["name"] % 2 == 0}
+            now = {PNAMES[p["name"]]: tgt(p["conn"]) for p in nd["params"] if p["conn"] is not None and avail(p["conn"]) and p["name"] % 2 == 0}
             handles[i] = b.add_component(nname(i), make_fn(interp, nd), **now)
             rest = {PNAMES[p["name"]]: p["conn"] for p in nd["params"] if p["conn"] is not None and PNAMES[p["name"]] not in now}
             if rest:
                 later.append((i, rest))
-    for i, wiring in later:
-        b.connect(handles[i], **{k: handles[t] for k, t in wiring.items()})
-    for pn, t in case["defaults"]:
-        b.default_connection(PNAMES[pn], handles[t])
+    # aliases first: the connect() calls below see every node and every alias of the builder
     for a, t in case["aliases"]:
         b.alias(nname(a), handles[t] if a % 2 == 0 else nname(t))
-    return b, handles
+    for i, wiring in later:
+        b.connect(handles[i], **{k: tgt(t) for k, t in wiring.items()})
+    for pn, t in case["defaults"]:
+        b.default_connection(PNAMES[pn], tgt(t))
+    for i in tgt.inline:
+        if i not in tgt.used:           # a literal nobody is wired to (the model has the node all the same)
+            b.literal(pyval(tgt.inline[i]))
+            tgt.used.add(i)
+    return b, tgt
 
 
 def run_impl(case):
     _setup()
     interp = Interp()
-    b, handles = make_builder(case, interp)
+    b, tgt = make_builder(case, interp)
+    handles = tgt.handles
     out = run_stage(case, interp, b, case["runs"], case.get("inject", []))
     more = []
+    state = case
     for stg in case.get("stages", []):
+        state = apply_edits(state, stg["edits"])
         for e in stg["edits"]:
             if e[0] == "default":
-                b.default_connection(PNAMES[e[1]], handles[e[2]])
+                b.default_connection(PNAMES[e[1]], tgt(e[2]))
             elif e[0] == "connect":
-                b.connect(handles[e[1]], **{PNAMES[e[2]]: handles[e[3]]})
+                b.connect(handles[e[1]], **{PNAMES[e[2]]: tgt(e[3])})
+            elif e[0] == "addlit":
+                tgt.inline[e[1]] = e[2]         # the value reaches the builder in the connect() that follows
             else:
                 b.alias(nname(e[1]), handles[e[2]])
         try:
@@ -553,7 +699,7 @@ def run_impl(case):
                 b.build_config()
         except PipelineError:
             pass
-        more.append(run_stage(case, interp, b, stg["runs"], []))
+        more.append(run_stage(state, interp, b, stg["runs"], []))
     if more:
         out["more"] = more
     return out
@@ -568,7 +714,16 @@ def run_stage(case, interp, b, runs, inject):
         raise
     for j, pn, t in inject:
         pipe._edges[nname(j)][PNAMES[pn]] = nname(t)      # bypasses the builder: exercises the runner's own cycle check
-    ids = {nname(nd["id"]): nd["id"] for nd in case["nodes"]}
+    ids = {nname(nd["id"]): nd["id"] for nd in case["nodes"] if nd["kind"] != "inline"}
+    inline = [(nd["id"], pyval(nd["val"])) for nd in case["nodes"] if nd["kind"] == "inline"]
+
+    def idof(k):
+        """a node of the pipeline -> its number in the case (literal nodes made from bare values: by value)"""
+        if k in ids:
+            return ids[k]
+        val = pipe.node(k).value
+        (i,) = [i for i, v in inline if same_value(v, val)]
+        return i
     obs = []
     for run in runs:
         kw = {nname(i): pyval(v) for i, v in run["inputs"]}
@@ -587,7 +742,7 @@ def run_stage(case, interp, b, runs, inject):
         interp.log, interp.raised = [], []
         try:
             st = pipe.run_all(*req, **kw)
-            o["state"] = sorted([ids[k], jval(v)] for k, v in dict(st).items())
+            o["state"] = sorted(([idof(k), jval(v)] for k, v in dict(st).items()), key=lambda kv: kv[0])
             o["all"] = ["values", [jval(st[r]) for r in req]]
         except Exception as e:
             o["state"] = None
@@ -606,7 +761,9 @@ def run_stage(case, interp, b, runs, inject):
 
 
 def c_val(v):
-    ctor = {"i": "VInt", "s": "VStr", "f": "VArrF", "a": "VArrI"}[v[0]]
+    if v[0] in ("n", "j"):          # a str spelled like a node name / another JSON-ish object: not an int, not an array
+        return f"(VStr {cz((N_OFF if v[0] == 'n' else J_OFF) + v[1])})"
+    ctor = {"i": "VInt", "b": "VInt", "s": "VStr", "f": "VArrF", "a": "VArrI"}[v[0]]
     return f"({ctor} {cz(v[1])})"
 
 
@@ -633,6 +790,8 @@ def c_bprog(b):
         return f"(BRaise {cz(b[1])})"
     if b[0] == "force":
         return f"(BForce {cnat(b[1])} {c_bprog(b[2])})"
+    if b[0] == "try":
+        return f"(BTryForce {cnat(b[1])} {c_bprog(b[2])} {c_bprog(b[3])})"
     return f"(BIfNone {c_atom(b[1])} {c_bprog(b[2])} {c_bprog(b[3])})"
 
 
@@ -647,6 +806,10 @@ def c_node(nd, inject):
         return f"BInput {cbool(nd['typed'])} {cbool(nd['nullable'])}"
     if nd["kind"] == "literal":
         return f"BLiteral {c_val(nd['val'])}"
+    if nd["kind"] == "inline":
+        # the literal None: a node that always holds None -- in the model the same as an optional untyped input
+        # that is never supplied
+        return "BInput false true" if nd["val"] is None else f"BLiteral {c_val(nd['val'])}"
     if nd["kind"] == "fallback":
         ps = [{"name": 0, "conn": nd["primary"], "ann": "any"}, {"name": 1, "conn": nd["fallback"], "ann": "lazyany"}]
         return f"BComp {clist(ps, c_bparam)} fallback_body"
@@ -687,6 +850,8 @@ def c_edit(e):
         return f"(EDefault {cnat(e[1])} {cnat(e[2])})"
     if e[0] == "connect":
         return f"(EConnect {cnat(e[1])} {cnat(e[2])} {cnat(e[3])})"
+    if e[0] == "addlit":
+        return f"(EAddLit {cnat(e[1])} ({c_node({'kind': 'inline', 'val': e[2]}, [])}))"
     return f"(EAlias {cnat(e[1])} {cnat(e[2])})"
 
 
@@ -698,13 +863,15 @@ def coq_term(case, obs):
         return (f"(match build {c_builder(case, [])} with None => negb {cbool(obs['built'])} | Some _ => {cbool(obs['built'])} && "
                 f"(let b := {c_builder(case, inject)} in let g := resolve b in "
                 f"forallb (agree_run false (2 + length g) g (b_aliases b)) {runs}) end)")
+    # the memo-free specification is compared as well unless a body catches the failure of a lazy input
+    spec = cbool(not has_try(case))
     if not case.get("stages"):
-        return f"agree_case {c_builder(case, [])} {cbool(obs['built'])} {runs}"
+        return f"agree_case_gen {spec} {c_builder(case, [])} {cbool(obs['built'])} {runs}"
     # a builder history: the model applies the edits to the builder state and rebuilds
     stages = [f"([], {cbool(obs['built'])}, {runs})"]
     for stg, o in zip(case["stages"], obs["more"]):
         stages.append(f"({clist(stg['edits'], c_edit)}, {cbool(o['built'])}, {c_runs(stg['runs'], o['runs'])})")
-    return f"agree_history {c_builder(case, [])} {clist(stages, str)}"
+    return f"agree_history_gen {spec} {c_builder(case, [])} {clist(stages, str)}"
 
 
 def stage_views(case, obs):
@@ -733,6 +900,13 @@ class IllTyped(Exception):
 
 class Boom(Exception):
     pass
+
+
+class PrevFailed(Exception):
+    pass
+
+
+CAUGHT = (Missing, IllTyped, Boom, PrevFailed, RecursionError)        # what `except Exception` in a body catches
 
 
 SKIP = object()
@@ -783,11 +957,35 @@ def reference(case, run):
             return nullable
         return jval(v)[0] == KIND_TAG[kind]      # int / float64 array / int64 array
 
+    # Evaluation without a memo table of VALUES.  What a run does remember, because a body that catches the failure
+    # of a lazy input can see it: a node that failed stays failed for the rest of the run (asking again gives the
+    # "previously failed" error, the node is not evaluated again), and a node that was left without a value for an
+    # optional consumer stays without a value (a requiring consumer gets the missing-input error).
+    failed, skipped = set(), set()
+    flags = {"caught": 0, "refused": 0}
+
     def ev(n, required, stack):
+        if n in failed:
+            flags["refused"] += 1
+            raise PrevFailed
         if n in stack:
             raise RecursionError
+        if n in skipped:
+            if required:
+                raise Missing
+            return SKIP
+        try:
+            v = ev1(n, required, stack)
+        except CAUGHT:
+            failed.add(n)
+            raise
+        if v is SKIP:
+            skipped.add(n)
+        return v
+
+    def ev1(n, required, stack):
         nd = nodes[n]
-        if nd["kind"] == "literal":
+        if nd["kind"] in ("literal", "inline"):
             return pyval(nd["val"])
         if nd["kind"] == "input":
             v = given.get(n)
@@ -850,9 +1048,19 @@ def reference(case, run):
             if b[0] == "force":
                 forced[b[1]] = None if args[b[1]] is None else args[b[1]]()
                 b = b[2]
+            elif b[0] == "try":
+                try:
+                    got = None if args[b[1]] is None else args[b[1]]()
+                except CAUGHT:
+                    flags["caught"] += 1
+                    b = b[3]
+                else:
+                    forced[b[1]] = got
+                    b = b[2]
             else:
                 b = b[2] if atom(b[1]) is None else b[3]
 
+    reference.flags = flags
     req = [alias.get(r, r) for r in run["req"]] or [nd["id"] for nd in case["nodes"]]
     try:
         vals = []
@@ -870,6 +1078,8 @@ def reference(case, run):
         return ["raised", ["EComp", e.args[0]]], set(executed)
     except RecursionError:
         return ["raised", ["ECycle"]], set(executed)
+    except PrevFailed:
+        return ["raised", ["EFailed"]], set(executed)
 
 
 def oracle(case, obs):
@@ -972,6 +1182,8 @@ def counters(case, obs):
                     break
     for c, o in views:
         yield from counters_one(c, o)
+    if has_try(case):
+        yield "has-catching-body"
     for c, o in views:
         for run, ro in zip(c["runs"], o["runs"]):
             if ro["outcome"][0] == "raised" and ro["outcome"][1][0] == "EComp":
@@ -992,6 +1204,20 @@ def counters_one(case, obs):
         yield "has-alias"
     if case.get("inject"):
         yield "cycle-injected-after-build"
+    names = {nname(nd["id"]) for nd in case["nodes"] if nd["kind"] != "inline"} | {nname(a) for a, _ in case["aliases"]}
+    for nd in case["nodes"]:
+        if nd["kind"] == "inline":
+            v = nd["val"]
+            yield "bare-value=" + ("None" if v is None else {"n": "str", "s": "str", "i": "int", "b": "bool"}.get(v[0]) or type(pyval(v)).__name__)
+            if v is not None and v[0] == "n":
+                yield "bare-value-str-" + ("names-a-node-or-alias" if pyval(v) in names else "names-no-node")
+    if obs["built"]:
+        for run in case["runs"]:
+            reference(case, run)
+            if reference.flags["caught"]:
+                yield "run:failure-of-lazy-input-caught"
+            if reference.flags["refused"]:
+                yield "run:failed-node-asked-again"
     for run, o in zip(case["runs"], obs["runs"]):
         oc = o["outcome"]
         yield "run:" + (oc[0] if oc[0] == "values" else oc[1][0])
@@ -1016,7 +1242,14 @@ def sample(case, obs):
     return {"case": case, "observation": obs}
 
 
+_SHRUNK = [0]
+
+
 def shrink(case, fails):
+    # cap the cost when something fails: the first few failing cases of a run are minimised, the rest reported as found
+    _SHRUNK[0] += 1
+    if _SHRUNK[0] > 5:
+        return case
     c = copy.deepcopy(case)
     c["runs"] = common.shrink_list(c["runs"], lambda xs: bool(xs) and fails({**c, "runs": xs}), 30)
     for run in c["runs"]:
